@@ -38,6 +38,7 @@ type ArchEntry struct {
 // AfterCall after each call (oracle hook).
 type FaultStore struct {
 	Inner  litestream.ReplicaClient
+	Outage bool // uploads and deletes fail (ops store_down / store_up)
 	// SnapshotSource, if set, returns the source database file's pages when a
 	// snapshot-level upload begins (facts about what the snapshot could read).
 	SnapshotSource func() *State
@@ -83,6 +84,12 @@ func (s *FaultStore) begin(kind string) (int, *Fault) {
 	}
 	if s.Disabled {
 		return idx, nil
+	}
+	if s.Outage && (kind == "write" || kind == "delete") {
+		// storage outage switched on by the program (op store_down): every
+		// mutating call fails before taking effect until store_up
+		s.Hit["outage_"+kind]++
+		return idx, &Fault{Call: idx, Kind: "fail_before"}
 	}
 	for _, st := range s.storms {
 		if st.N > 0 && idx >= st.Call && st.On == kind {
